@@ -115,7 +115,7 @@ def c14_case(draw, tier):
                 opts += [["cast", d_, "int64"], ["cast", d_, "float64"]]
             e = draw(st.sampled_from(opts)) if opts else None
         elif which == "unknown_col":
-            e = ["col", {"c": draw(st.sampled_from(["zz", "nope", "id_x"]))}]
+            e = ["col", {"c": draw(st.sampled_from([n for n in ["zz", "nope", "id_x"] if n not in t.names()]))}]
         if e is None:
             case["mode"] = "skip"
             return case
